@@ -873,6 +873,8 @@ pub struct NameChoices {
 	pub extra_zero_blocks: usize,
 	/// directory only: file-system freedoms (links, empty directories, strays below the root, number spellings)
 	pub fs: FsLayout,
+	/// one extra file named like a tile whose x (or y) is 2^z: outside of its level, open must fail (/repo b9f3d83c)
+	pub out_of_level: bool,
 	/// tar only: one extra member that is a link to a tile member, named like a tile: 0 none, 1 hard link, 2 symbolic link
 	pub link_member: u8,
 }
@@ -891,6 +893,7 @@ pub fn gen_name_choices(rng: &mut Rng, tar: bool) -> NameChoices {
 		extra_zero_blocks: if tar && rng.chance(1, 4) { 18 } else { 0 },
 		fs: if tar || rng.chance(1, 3) { FsLayout::default() } else { gen_fs_layout(rng) },
 		link_member: if tar && rng.chance(1, 6) { rng.range(1, 2) as u8 } else { 0 },
+		out_of_level: rng.chance(1, 20),
 	}
 }
 /// checklist class 9 for the directory format: the file system is the encoder
@@ -927,6 +930,14 @@ fn named_files(tiles: &TileMap, ch: &NameChoices, r: &mut Rng) -> Vec<(String, V
 	if let Some((name, c)) = ch.meta {
 		let pos = if ch.shuffle { r.below(files.len() as u64 + 1) as usize } else { 0 };
 		files.insert(pos, (format!("{name}{}", c.ext()), compress(c, br#"{"name":"indep"}"#)));
+	}
+	if ch.out_of_level {
+		if let Some((z, _, _)) = tiles.keys().next() {
+			let n = 1u64 << z;
+			let name = if r.chance(1, 2) { format!("{z}/{n}/0{}", ext_of(ch)) } else { format!("{z}/0/{n}{}", ext_of(ch)) };
+			let pos = r.below(files.len() as u64 + 1) as usize;
+			files.insert(pos, (name, vec![7, 7]));
+		}
 	}
 	if ch.stray {
 		files.push(("README.md".into(), b"hello".to_vec()));
@@ -969,6 +980,9 @@ fn name_freedoms(ch: &NameChoices, tar: bool) -> Vec<&'static str> {
 	}
 	if ch.stray {
 		fr.push("stray_files");
+	}
+	if ch.out_of_level {
+		fr.push("name_outside_its_level");
 	}
 	match ch.link_member {
 		1 if tar => fr.push("hard_link_member"),
@@ -1066,7 +1080,7 @@ pub fn build_t(rt: &Runtime, scratch: &mut Scratch, tiles: &TileMap, ch: &NameCh
 	let bytes = encode_tar(&members, ch.extra_zero_blocks).unwrap();
 	let path = scratch.fresh(".tar");
 	std::fs::write(&path, &bytes).unwrap();
-	let sc = if ch.stray || ch.dot_prefix == 3 { None } else { selfcheck(decode_tar(&bytes), Some(ch.fmt), Some(ch.comp), tiles) };
+	let sc = if ch.stray || ch.dot_prefix == 3 || ch.out_of_level { None } else { selfcheck(decode_tar(&bytes), Some(ch.fmt), Some(ch.comp), tiles) };
 	let mut want = tiles.clone();
 	if let Some((c, p)) = &linked {
 		want.insert(*c, p.clone());
@@ -1076,6 +1090,7 @@ pub fn build_t(rt: &Runtime, scratch: &mut Scratch, tiles: &TileMap, ch: &NameCh
 	rm(&path);
 	let mut intent = Intent::from_tiles("tar", ch.fmt, ch.comp, &want);
 	intent.flag = Some(("dot_prefix", json!(ch.dot_prefix)));
+	intent.refusal_ok = ch.out_of_level;
 	if linked.is_some() {
 		intent.refusal_ok = true;
 		intent.flag = Some(("link_member", json!(if ch.link_member == 1 { "hard" } else { "symbolic" })));
@@ -1093,14 +1108,14 @@ pub fn build_d(rt: &Runtime, scratch: &mut Scratch, tiles: &TileMap, ch: &NameCh
 		write_dir_fs(&path, &files, &ch.fs).unwrap()
 	};
 	// the independent decoder walks the tree following links; it knows canonical numbers only and refuses strays
-	let sc = if ch.stray || ch.fs.deep_strays || ch.fs.digits != 0 || ch.fs.wrong_kind != 0 { None } else { selfcheck(decode_dir(&path), Some(ch.fmt), Some(ch.comp), tiles) };
+	let sc = if ch.stray || ch.out_of_level || ch.fs.deep_strays || ch.fs.digits != 0 || ch.fs.wrong_kind != 0 { None } else { selfcheck(decode_dir(&path), Some(ch.fmt), Some(ch.comp), tiles) };
 	let qs = queries(tiles, seed, 31);
 	let res = run_d(rt, &path, &qs);
 	rm(&path);
 	rm(&store_of(&path));
 	let mut intent = Intent::from_tiles("directory", ch.fmt, ch.comp, tiles);
 	// a regular file where the layout wants a directory: refusing the whole tree loudly is as good as ignoring the entry
-	intent.refusal_ok = ch.fs.wrong_kind != 0;
+	intent.refusal_ok = ch.fs.wrong_kind != 0 || ch.out_of_level;
 	if !ch.fs.is_plain() {
 		let f = &ch.fs;
 		let label = if f.z_link != 0 { "z_directory_link" } else if f.x_link != 0 { "x_directory_link" } else if f.file_link == 4 { "hard_link" } else if f.file_link != 0 { "tile_symlink" } else if f.wrong_kind != 0 { "wrong_kind" } else if f.digits != 0 { "digits" } else { "extra_entries" };
